@@ -674,6 +674,21 @@ struct Extractor : public RecursiveASTVisitor<Extractor> {
         } else if (auto CI = El.getAs<CFGInitializer>()) {
           const CXXCtorInitializer* I = CI->getInitializer();
           if (I->isAnyMemberInitializer() && I->getInit()) {
+            // Calls inside a default member initialiser (`T x_ = f();`) are not separate CFG
+            // elements: emit them here so that they are visible as call events.
+            if (isa<CXXDefaultInitExpr>(I->getInit()->IgnoreImplicit())) {
+              std::vector<const Stmt*> st{cast<CXXDefaultInitExpr>(I->getInit()->IgnoreImplicit())->getExpr()};
+              std::vector<const Stmt*> post;
+              while (!st.empty()) {
+                const Stmt* X = st.back();
+                st.pop_back();
+                if (!X) continue;
+                post.push_back(X);
+                for (const Stmt* C : X->children()) st.push_back(C);
+              }
+              for (auto it = post.rbegin(); it != post.rend(); ++it)
+                if (isa<CallExpr>(*it)) emitEvents(*it, ev, PM, calleeRefs);
+            }
             json::Object o{{"k", "asg"}, {"op", "="}, {"init", true},
                            {"line", (int64_t)lineOf(I->getSourceLocation())}};
             const FieldDecl* F = I->getAnyMember();
